@@ -173,10 +173,10 @@ def finish(report: Report, tier: str, seed: int, t0: float, level="exploration")
         "wall_s": round(time.time() - t0, 2),
         "violations": len(fresh),
     }
-    if status != 2 and report.n_nontrivial() < 2:
-        status = max(status, 2)
+    if status == 0 and report.n_nontrivial() < 2:
+        status = 2
         lines.append(f"INCONCLUSIVE property={prop} reason=fewer-than-2-nontrivial-cases")
-        ev["coverage"]["verdict"] = "inconclusive" if status == 2 else ev["coverage"]["verdict"]
+        ev["coverage"]["verdict"] = "inconclusive"
     evp = VERIF / "evidence" / f"{prop}.json"
     evp.parent.mkdir(exist_ok=True)
     text = jdump(ev, indent=1)
